@@ -28,6 +28,7 @@ NormTerm(t) ==
        ELSE IF IsPlainGroup(t) /\ Len(e.alts) = 1 THEN e.alts[1]
        ELSE IF Len(e.alts) = 1 /\ Len(e.alts[1]) = 1
                /\ (~(t.neg /\ e.alts[1][1].neg)) /\ (t.rep = "" \/ e.alts[1][1].rep = "")
+               /\ ~(t.neg /\ e.alts[1][1].rep # "")      \* a term ~x+ denotes (~x)+ ; ~(x+) keeps its parentheses
             THEN \* ( x )* == x*,  ~( x ) == ~x : the modifiers move onto the single inner term
                  <<[e.alts[1][1] EXCEPT !.neg = t.neg \/ e.alts[1][1].neg,
                                         !.rep = IF t.rep # "" THEN t.rep ELSE e.alts[1][1].rep]>>
